@@ -92,7 +92,9 @@ static std::string argstr(const std::vector<size_t>& p) {
 
 // what the pointers in the knots array must be afterwards: relabelled on success, untouched on failure
 static bool ptr_check(const Table& t, const std::vector<const double*>& before, const std::vector<size_t>& perm, bool ok) {
+  if (ok && perm.size() != t.ndim) return false;
   for (uint32_t i = 0; i < t.ndim; i++) {
+    if (ok && perm[i] >= before.size()) return false;     // accepted something that is not a permutation
     const double* want = ok ? before[perm[i]] : before[i];
     if (t.knots[i] != want) return false;
   }
@@ -107,8 +109,8 @@ static Scalars scalars(const Table& t) {
 static bool same(const Scalars& a, const Scalars& b) { return memcmp(&a, &b, sizeof(Scalars)) == 0; }
 
 // one C++ call; returns true when the permutation was accepted
-static bool call_cpp(Table& t, const char* tag, const std::vector<size_t>& perm, uint64_t nc, std::string* after = nullptr) {
-  PtrMap pm = ptrmap(t);
+static bool call_cpp(Table& t, const char* tag, const std::vector<size_t>& perm, uint64_t nc, std::string* after = nullptr, const PtrMap* known = nullptr) {
+  PtrMap pm = known ? *known : ptrmap(t);   // the true allocations (a wrongly permuted table must not mislead the dump)
   std::vector<const double*> before(t.knots, t.knots + t.ndim);
   Scalars s0 = scalars(t);
   fprintf(fc, "%s %s # %s\n", tag, dump(t, pm, nc).c_str(), argstr(perm).c_str());
@@ -121,6 +123,7 @@ static bool call_cpp(Table& t, const char* tag, const std::vector<size_t>& perm,
   // the arrays themselves stay where they are (the routine copies back into the table's own storage)
   bool pok = same(s0, scalars(t)) && ptr_check(t, before, perm, ok);
   fprintf(fi, "%s %s ptr=%d\n", outcome.c_str(), d.c_str(), pok ? 1 : 0);
+  fflush(fc); fflush(fi);   // a later crash must not lose the lines already produced
   lineno++;
   stats[std::string("outcome_") + outcome]++;
   if (after) *after = d;
@@ -140,6 +143,7 @@ static void call_c(Table& t, const std::vector<size_t>& mem, uint64_t nc) {
   bool unchanged_arg = (m == mem);
   bool pok = same(s0, scalars(t)) && ptr_check(t, before, mem, rc == 0) && unchanged_arg && st.data == &t;
   fprintf(fi, "rc%d %s ptr=%d\n", rc, dump(t, pm, nc).c_str(), pok ? 1 : 0);
+  fflush(fc); fflush(fi);
   lineno++;
   stats[std::string("c_rc_") + std::to_string(rc)]++;
 }
@@ -204,7 +208,8 @@ static void valid_case(Rng& r, const Gen& g, const Gen& gabs, const std::vector<
   }
   long mine = lineno + 1;
   std::string after;
-  bool ok = call_cpp(t, "P", perm, g.coef.size(), &after);
+  PtrMap pm0 = ptrmap(t);
+  bool ok = call_cpp(t, "P", perm, g.coef.size(), &after, &pm0);
   if (!ok) return;
   fprintf(fe, "E %ld %llu %u", mine, (unsigned long long)prod_order(g), nd);
   for (int p = 0; p < npts; p++) {
@@ -215,12 +220,12 @@ static void valid_case(Rng& r, const Gen& g, const Gen& gabs, const std::vector<
     stats["eval_points"]++;
     if (vb[p] != 0) stats["eval_nonzero"]++;
   }
-  fprintf(fe, "\n");
+  fprintf(fe, "\n"); fflush(fe);
   std::vector<size_t> inv(nd);
   for (uint32_t i = 0; i < nd; i++) inv[perm[i]] = i;
   bool involution = inv == perm;
   stats[involution ? "perm_involution" : "perm_non_involution"]++;
-  call_cpp(t, "Q", inv, g.coef.size());
+  call_cpp(t, "Q", inv, g.coef.size(), nullptr, &pm0);
 }
 
 static std::vector<size_t> random_perm(Rng& r, uint32_t nd) {
